@@ -161,7 +161,9 @@ impl Drop for Sess {
 // ------------------------------------------------------------------------------------------------
 
 const CLOCK_VALUES: &[&str] = &["0", "-5", "-1000000000000000000", "1", "99", "100", "101", "150", "220", "400", "800", "3000"];
-const HUGE: &[&str] = &["100000000", "9007199254740993", "1000000000000000000000000000000", "-1000000000000000000", "0"];
+const HUGE: &[&str] = &["100000000", "9007199254740993", "1000000000000000000000000000000", "-1000000000000000000", "0",
+    // integers that do not fit any machine integer are still clock values
+    "1000000000000000000000000000000000000000000000", "-1000000000000000000000000000000000000000000000", "340282366920938463463374607431768211456"];
 
 /// Random go arguments whose planned slice for `stm` is at most `max_plan` ms.
 pub fn go_args(rng: &mut Rng, stm: Color, max_plan: u128) -> String {
@@ -182,7 +184,7 @@ pub fn go_args(rng: &mut Rng, stm: Color, max_plan: u128) -> String {
             fields.push((their_i.into(), rng.pick(HUGE).to_string()));
         }
         if rng.chance(1, 2) {
-            fields.push(("movestogo".into(), rng.pick(&["1", "2", "40"]).to_string()));
+            fields.push(("movestogo".into(), rng.pick(&["1", "2", "40", "40", "4294967295", "4294967296", "100000000000000000000"]).to_string()));
         }
         rng.shuffle(&mut fields);
         for (k, v) in fields {
@@ -194,10 +196,15 @@ pub fn go_args(rng: &mut Rng, stm: Color, max_plan: u128) -> String {
         }
         let args = parts.join(" ");
         let line = if args.is_empty() { "go".to_string() } else { format!("go {}", args) };
-        if let Ok(plan) = plan_for(&line, stm) {
-            if plan <= max_plan {
-                return args;
+        match plan_for(&line, stm) {
+            Ok(plan) => {
+                if plan <= max_plan {
+                    return args;
+                }
             }
+            // the repository's own parser / policy panics on this line: the plan is unknown, the
+            // line is still a go with integer clock values and is sent as it is
+            Err(_) => return args,
         }
     }
     String::new()
